@@ -18,3 +18,4 @@ def run(ctx, rep):
     from ..rules import more
     more.rule_options_perm(mod, rep)
     more.rule_meminit_refact(mod, rep)
+    more.rule_pivot_found(mod, rep)
